@@ -103,21 +103,26 @@ Proof. exact percentile_errors. Qed.
 (* the sort inside the percentile is a sorted permutation of the coordinates *)
 Theorem C17_percentile_sort_is_sorted_permutation : forall l,
   Permutation (isort ROps l) l /\ StronglySorted Rle (isort ROps l).
-Proof. intros l. exact (conj (isort_perm l) (isort_sorted l)). Qed.
-(* PARTIAL: the percentile value is characterised where the virtual index (n-1)q/100 is an integer k (it is the
-   k-th smallest coordinate; q = 0 gives the minimum, q = 100 the maximum).  Missing: for a non-integer virtual
-   index the value is, by definition of the model, the linear interpolation s[lo] + (s[lo+1]-s[lo])*frac; the
-   statement that it lies between s[lo] and s[lo+1] is not proved. *)
-Theorem C17_percentile_value_partial : forall l,
+Proof. exact isort_sorted_permutation. Qed.
+(* the percentile value is NumPy's linear-interpolation percentile for every q in [0,100]: with the virtual index
+   v = (n-1) q/100 = lo + g, lo a natural number and 0 <= g < 1, it is s[lo] + g (s[lo+1] - s[lo]) on the sorted
+   coordinates s (s[lo] at the last position) and lies between these two neighbours *)
+Theorem C17_percentile_value_spec : forall l q, l <> [] -> 0 <= q <= 100 ->
+  let s := isort ROps l in let n := length l in
+  let v := IZR (Z.of_nat n - 1) * (q / 100) in
+  exists lo g, (lo <= n - 1)%nat /\ 0 <= g < 1 /\ v = INR lo + g /\
+    let hi := Nat.min (S lo) (n - 1) in
+    percentile_value ROps l q = List.nth lo s 0 + g * (List.nth hi s 0 - List.nth lo s 0) /\
+    List.nth lo s 0 <= percentile_value ROps l q <= List.nth hi s 0.
+Proof. exact percentile_value_spec. Qed.
+(* in particular: an integer virtual index k gives the k-th smallest coordinate, q = 0 the minimum, q = 100 the maximum *)
+Theorem C17_percentile_value_at_rank : forall l,
   (forall q k, (k < length l)%nat -> IZR (Z.of_nat (length l) - 1) * (q / 100) = IZR (Z.of_nat k) ->
      percentile_value ROps l q = List.nth k (isort ROps l) 0) /\
   (l <> [] -> percentile_value ROps l 0 = List.nth 0 (isort ROps l) 0 /\
               percentile_value ROps l 100 = List.nth (length l - 1) (isort ROps l) 0) /\
   (forall x, In x l -> List.nth 0 (isort ROps l) 0 <= x <= List.nth (length l - 1) (isort ROps l) 0).
-Proof.
-  intros l. split; [intros q k; apply percentile_value_at_index|]. split; [|apply isort_extremes].
-  intros H. exact (conj (percentile_value_0 l H) (percentile_value_100 l H)).
-Qed.
+Proof. exact percentile_value_at_rank. Qed.
 
 (* non-vacuity *)
 Example C17_box_inhabited : nonneg_size (MkBox (V3 1 2 3) (V3 1 (1/2) 0)).
@@ -127,5 +132,5 @@ Definition C17_all := (C17_from_points_tight, C17_from_points_contains_all, C17_
   C17_bounding_box_is_from_points, C17_negative_size_rejected, C17_accessor_identities, C17_ranges, C17_corners,
   C17_planes_inward_through_faces, C17_plane_signed_distances, C17_contains_iff_six_planes,
   C17_extent_is_max_pair, C17_extent_too_few_rejected, C17_percentile_point_spec, C17_percentile_errors,
-  C17_percentile_sort_is_sorted_permutation, C17_percentile_value_partial).
+  C17_percentile_sort_is_sorted_permutation, C17_percentile_value_spec, C17_percentile_value_at_rank).
 Print Assumptions C17_all.
